@@ -344,6 +344,12 @@ class Ctl:
             raise RuntimeError("uncontrolled blocking wait (%s) outside a dsched run" % what)
         if pred():
             return True
+        # blocking waits count against the step budget too: a loop that polls with zero-timeout waits on a clock that cannot
+        # advance while it is runnable would otherwise spin without ever reaching a yield point
+        self.steps += 1
+        if self.steps > self.max_steps:
+            self.failed = self.failed or "step budget exceeded"
+            raise StepBudget()
         r.wait, r.what, r.timed_out = pred, what, False
         if self.watch_lines and what != "stall":
             self.watch_log.append((len(self.events), r.name, "wait", what))
@@ -839,11 +845,14 @@ def _on_line(code: Any, line: int) -> Any:
 WATCHDOG_S = 20.0
 
 
-def run(scenario: Callable[[Ctl], Any], strategy: Strategy, max_steps: int = 400000) -> Ctl:
+DEFAULT_MAX_STEPS = 400000
+
+
+def run(scenario: Callable[[Ctl], Any], strategy: Strategy, max_steps: int | None = None) -> Ctl:
     """Run one scenario (the driver thread executes scenario(ctl)) under `strategy`."""
     global CTL
     gc.collect()          # finalizers run here, between runs, never at a random point inside a run
-    c = Ctl(strategy, max_steps)
+    c = Ctl(strategy, DEFAULT_MAX_STEPS if max_steps is None else max_steps)
     CTL = c
     done = R_Semaphore(0)
 
